@@ -290,6 +290,15 @@ pub fn op_position(acc: &mut Acc, wd: &mut IncWorld, ui: usize, expand: bool, am
                 _ => amount,
             };
             set_allowance(&mut wd.app, t, &usr, &inc, allow);
+            // the receiver of a position often has a standing approval of its own towards the incentive contract
+            // (wallets grant them once): the deposit must still come out of the sender's pocket
+            if let Some(ri) = receiver {
+                if ri != ui && amount % 2 == 0 {
+                    let rcv = wd.users[ri].clone();
+                    set_allowance(&mut wd.app, t, &rcv, &inc, u128::MAX / 4);
+                    acc.count("position.receiver-has-standing-allowance");
+                }
+            }
         }
     }
     let before = snap(&wd.app);
@@ -437,6 +446,11 @@ pub fn op_helper_deposit(acc: &mut Acc, wd: &mut IncWorld, ui: usize, amount: u1
     let helper = wd.helper.clone();
     if let AssetRef::Cw20(t) = &a1 {
         set_allowance(&mut wd.app, t, &usr, &helper, d1);
+    }
+    // standing approval of the user's LP tokens towards the incentive contract (granted once by wallets)
+    if d0 % 2 == 0 {
+        let inc = wd.incentive.clone();
+        set_allowance(&mut wd.app, &lp, &usr, &inc, u128::MAX / 4);
     }
     let pos_pre = wd.positions(&usr);
     let inc_pre = wd.lp.balance(&wd.app, &wd.incentive);
